@@ -6,33 +6,33 @@ permutation) from which `Pop` takes a best element; every step of the array heap
 namespace Hive.C12a.Heap
 
 /-- `e` is a best element of `m`: nothing in `m` sorts strictly before it. -/
-def Best (desc : Bool) (e : Elem) (m : List Elem) : Prop :=
-  e ∈ m ∧ ∀ x ∈ m, lessK desc x.key e.key = false
+def Best (cmp : Cmp) (e : Elem) (m : List Elem) : Prop :=
+  e ∈ m ∧ ∀ x ∈ m, lessK cmp x.key e.key = false
 
 /-- A list in priority order. -/
-def Sorted (desc : Bool) (l : List Elem) : Prop :=
-  l.Pairwise (fun a b => lessK desc b.key a.key = false)
+def Sorted (cmp : Cmp) (l : List Elem) : Prop :=
+  l.Pairwise (fun a b => lessK cmp b.key a.key = false)
 
 /-- One step of the abstract priority multiset `m` (next handle `next`): the allowed answer `o`
 and successor multiset `m'`.  Everything is stated through membership, `Perm` and `length`, so it
 does not depend on the order in which `m` is listed. -/
-def specOk (desc : Bool) (m : List Elem) (next : Nat) : Op → Out → List Elem → Prop
+def specOk (cmp : Cmp) (m : List Elem) (next : Nat) : Op → Out → List Elem → Prop
   | .push v p, o, m' => o = .handle next ∧ m'.Perm (⟨next, p, v⟩ :: m)
   | .remove h, o, m' =>
     o = .ok ∧ ((∃ e, e ∈ m ∧ e.id = h ∧ m.Perm (e :: m')) ∨ ((∀ e ∈ m, e.id ≠ h) ∧ m' = m))
   | .peek, o, m' =>
-    m' = m ∧ ((m = [] ∧ o = .elem none) ∨ ∃ e, o = .elem (some e) ∧ Best desc e m)
+    m' = m ∧ ((m = [] ∧ o = .elem none) ∨ ∃ e, o = .elem (some e) ∧ Best cmp e m)
   | .pop, o, m' =>
-    (m = [] ∧ o = .elem none ∧ m' = []) ∨ ∃ e, o = .elem (some e) ∧ Best desc e m ∧ m.Perm (e :: m')
+    (m = [] ∧ o = .elem none ∧ m' = []) ∨ ∃ e, o = .elem (some e) ∧ Best cmp e m ∧ m.Perm (e :: m')
   | .popUntil p, o, m' =>
-    ∃ l, o = .elems l ∧ (l ++ m').Perm m ∧ Sorted desc l ∧ (∀ e ∈ l, leK desc e.key p = true) ∧
-      (∀ x ∈ m', leK desc x.key p = false)
-  | .popAll, o, m' => ∃ l, o = .elems l ∧ l.Perm m ∧ Sorted desc l ∧ m' = []
+    ∃ l, o = .elems l ∧ (l ++ m').Perm m ∧ Sorted cmp l ∧ (∀ e ∈ l, leK cmp e.key p = true) ∧
+      (∀ x ∈ m', leK cmp x.key p = false)
+  | .popAll, o, m' => ∃ l, o = .elems l ∧ l.Perm m ∧ Sorted cmp l ∧ m' = []
   | .size, o, m' => o = .nat m.length ∧ m' = m
   | .isEmpty, o, m' => o = .bool (m.length == 0) ∧ m' = m
 
 theorem step_allowed (s : St) (hs : Inv s) (op : Op) :
-    specOk s.desc s.arr s.idx.length op (step s op).2 (step s op).1.arr := by
+    specOk s.cmp s.arr s.idx.length op (step s op).2 (step s op).1.arr := by
   cases op with
   | push v p => exact ⟨by simp [step, push_handle], push_perm s v p⟩
   | remove h =>
@@ -65,7 +65,7 @@ multiset, the allocation counter as the next handle). -/
 def AllowedRun (s : St) : List Op → Prop
   | [] => True
   | op :: ops =>
-    specOk s.desc s.arr s.idx.length op (step s op).2 (step s op).1.arr ∧ AllowedRun (step s op).1 ops
+    specOk s.cmp s.arr s.idx.length op (step s op).2 (step s op).1.arr ∧ AllowedRun (step s op).1 ops
 
 theorem run_allowed (s : St) (hs : Inv s) (ops : List Op) : AllowedRun s ops := by
   induction ops generalizing s with
